@@ -11,6 +11,8 @@ R30.3 utils::pos_to_offset decides the width of the line terminator per line: in
       for the whole document is wrong for texts that mix CRLF and LF and yields offsets beyond the text).
 Offsets staying within the text in general is a value property: NOT decided.
 R30.4 unsigned-subtraction inventory on the same request paths (guard-discharged or reviewed, see subguard.py).
+R30.5 char-boundary inventory: str/String operations that take a byte offset (split_at, range index, insert, drain(range) ...)
+      on the request paths are exactly the reviewed table; the checked forms (get, split_at_checked) are not listed.
 """
 import json
 import os
@@ -38,6 +40,22 @@ SUB_TABLE = {
         (1, "end - start of an Rng: ranges are built from token locations (start <= end) by Rng::from / Rng::extend"),
     "parol_ls|formatting::format::production_fmt|format_production_lhs_with_context":
         (1, "4 - identifier.len() behind `identifier.len() + comments.len() < 5` (a sum guard the recogniser does not model)"),
+}
+
+
+# char-boundary sensitive str/String operations (panic when a byte offset is inside a multi-byte character)
+BOUNDARY_CALLS = {"split_at", "split_at_mut", "insert_str", "insert", "replace_range", "drain", "truncate", "split_off", "remove",
+                  "index", "index_mut"}
+BOUNDARY_TABLE = {
+    "parol_ls|server|Server::make_remove_from_skip_action":
+        (1, "split_at(find(\"%skip\") + \"%skip\".len()): an offset returned by str::find plus the length of an ASCII literal"),
+    "parol_ls|server|Server::split_inline_comment":
+        (2, "split_at(idx) with idx = line.find(..): offsets returned by str::find are character boundaries"),
+    "parol_ls|utils|extract_text_range":
+        (2, "offsets from pos_to_offset for ranges taken from token locations (char-based columns inside the line, or the line end "
+            "behind an ASCII delimiter); client-supplied ranges must not reach this function"),
+    "parol_ls|utils|pos_to_offset":
+        (1, "split_at(offset) with offset = sum of complete line lengths and terminators"),
 }
 
 
@@ -88,6 +106,36 @@ def check(ctx):
                    nontrivial=(e["class"] == "reviewed-safe"))
     ctx.counters.update({"sites_" + k.replace("-", "_"): v for k, v in classes.items()})
     ctx.require_floor("R30.1", "reachable_functions", len(seen), 100)
+    # R30.5 char-boundary sensitive string operations on the request paths: reviewed table
+    nb = 0
+    found_b = {}
+    for k, (b, pk, info) in sorted(seen.items()):
+        for c in b.calls():
+            n = (c.path or "").split("::")[-1]
+            st = c.self_ty or ""
+            if n in BOUNDARY_CALLS and (st in ("str", "std::string::String") or st.startswith("&str")):
+                pa = c.callee.get("pa") or ""
+                if "RangeFull" in pa:
+                    continue            # the whole string: no offset involved
+                if n in ("index", "index_mut") and "Range" not in pa:
+                    continue
+                nb += 1
+                found_b.setdefault(fn_key(b, ctx.facts()), []).append((b, c))
+    for key, sites in sorted(found_b.items()):
+        allowed = BOUNDARY_TABLE.get(key)
+        b, c = sites[0]
+        if allowed and len(sites) <= allowed[0]:
+            ctx.ok("R30.5", key + "|char-boundary", "%d reviewed byte-offset operation(s) on text: %s" % (len(sites), allowed[1]),
+                   where(b, c.line))
+        else:
+            ctx.bad("R30.5", key + "|char-boundary", "%d byte-offset operation(s) on document text (%s at lines %s)%s: slicing / "
+                    "splitting a str at an offset inside a multi-byte character panics and takes the server down; use the checked "
+                    "form (get / is_char_boundary); call chain: %s"
+                    % (len(sites), sorted({(x.path or '').split('::')[-1] for _b, x in sites}), [x.line for _b, x in sites],
+                       " where %d were reviewed" % allowed[0] if allowed else " not in the reviewed table",
+                       " -> ".join(short(x) for x in cg.chain(seen, b)[-5:])), where(b, sites[-1][1].line))
+    ctx.counters["char_boundary_sites"] = nb
+    ctx.require_floor("R30.5", "char_boundary_sites", nb, 4)
     # R30.4 unsigned subtractions on the request paths: guarded or reviewed
     from . import subguard
     subguard.inventory(ctx, ctx.facts(), cg, seen, "R30.4", SUB_TABLE, 2, what="request paths of the language server")
